@@ -320,6 +320,11 @@ func (r *Reader) readHeader(in io.Reader) (h ws.Header, err error) {
 	// Overwrite first 2 bytes that was read before.
 	bts = bts[:extra]
 	_, err = io.ReadFull(in, bts)
+	if err == io.EOF {
+		// First two bytes of the header are already read, thus clean EOF is
+		// not possible here.
+		err = io.ErrUnexpectedEOF
+	}
 	if err != nil {
 		return h, err
 	}
